@@ -306,6 +306,28 @@ def analyse_tu(src, tier="quick", extra=(), keep_ir=False):
             res["residual"].append(dict(func=dm.get(c["func"], c["func"]), id=c["id"], ints=list(c["ints"]),
                                         driver_loc=["%s:%d (%s)" % x for x in chain[-2:]],
                                         library_path=["%s :: %s" % x for x in path][:40]))
+        if res["indeterminate"]:
+            # the declare-mode IR has only been through the first pipeline: a point whose condition folded to false / undef may simply be
+            # unreachable in a way only the later pipelines see. Keep a candidate only if it is still there, with the same verdict,
+            # after every IR-level pipeline has been applied to the declare-mode IR as well.
+            cand = set((e["func"], e["id"], tuple(e["ints"])) for e in res["indeterminate"])
+            for name, steps in _pipelines()[1:]:
+                cur = dll; ok = True
+                for i, st in enumerate(steps):
+                    nxt = os.path.join(workdir, "d_%s_%d.ll" % (name, i))
+                    rc, so, se = _run(st + [cur, "-o", nxt])
+                    if rc != 0:
+                        ok = False; break
+                    cur = nxt
+                if not ok:
+                    continue
+                c2, _ = parse_ir(open(cur).read())
+                still = set((dm.get(c["func"], c["func"]), c["id"], tuple(c["ints"])) for c in c2 if c["kind"] == "__verif_declare" and c["cond"] in (0, "undef"))
+                cand &= still
+                if not cand:
+                    break
+            res["indeterminate"] = [e for e in res["indeterminate"] if (e["func"], e["id"], tuple(e["ints"])) in cand]
+            res["refuted"] = [e for e in res["refuted"] if (e["func"], e["id"], tuple(e["ints"])) in cand]
         have = set((r["func"], r["id"], tuple(r["ints"])) for r in res["residual"])
         for e in res["indeterminate"]:
             if (e["func"], e["id"], tuple(e["ints"])) not in have:
